@@ -20,7 +20,7 @@ func init() {
 		Level: "exploration",
 		Rule: "PES packets encoded by the reference codec from random/swept header models (all 256 flag bytes x 32 extension subsets incl. pack_header_field, single-bit clock values, all trick mode bytes, " +
 			"CRC values, header stuffing, four PES_packet_length modes) and decoded by the library (NextData through TS packets and the parsePESData hook); writer-supported headers " +
-			"written with WriteData and compared byte for byte after independent reassembly; ClockReference.Duration against big.Int; distinct = hash of the PES bytes; " +
+			"written with WriteData and compared byte for byte after independent reassembly; units of 65 500 bytes .. 1 MiB + 1 through NextData (stage big); ClockReference.Duration against big.Int; distinct = hash of the PES bytes; " +
 			"non-trivial = optional header with at least one optional field, or a non-exact length mode",
 		Assumptions: []string{"reference = refts/pes.go from ISO 13818-1 2.4.3.6-7 (anchored by a hand-assembled PTS vector in the self check)",
 			"pack_header_field: the struct keeps pack_field_length only; the pack_header() bytes must be stepped over so that the listed fields after it decode correctly",
@@ -34,6 +34,7 @@ func init() {
 			need(m, &out, "pes_decoded_through_ts", 10000)
 			need(m, &out, "pes_written_and_compared", 20000)
 			need(m, &out, "durations_checked", 500000)
+			need(m, &out, "big_units_decoded", 15)
 			needSet(m, &out, "flag_bytes", 256)
 			needSet(m, &out, "ext_subsets", 32)
 			needSet(m, &out, "trick_bytes", 256)
@@ -349,6 +350,31 @@ func runC12(c *mon.Ctx) {
 			b, _ := refts.EncodePES(pc.h, pc.data, pc.enc, nil)
 			c.Sample("random", map[string]any{"pes_head": mon.Hex(b, 40), "mode": pc.mode, "data_len": len(pc.data)})
 		}
+	}
+	// stage big: units around and far above what a 16 bit length can describe (PES_packet_length 0: everything up to the next unit),
+	// decoded directly and through the Demuxer
+	bigSizes := []int{65500, 65520, 65527, 65528, 65529, 65535, 65536, 65541, 65542, 70000, 131071, 131072, 200000, 1 << 20, 1<<20 + 1}
+	for i := int64(0); i < c.Pick(int64(len(bigSizes)), int64(8*len(bigSizes))); i++ {
+		if !c.Mine("big", i) {
+			continue
+		}
+		r := c.Rng("big", i)
+		pc := newPESCase(r, -1, -1)
+		if gen.IsNoHeaderID(pc.h.StreamID) {
+			pc.h.StreamID = 0xE0 + uint8(i%16)
+		}
+		n := bigSizes[int(i)%len(bigSizes)]
+		if int(i) >= len(bigSizes) {
+			n += r.IntN(200) - 100
+		}
+		pc.data = gen.Bytes(r, n)
+		pc.mode, pc.enc.LengthZero = "zero", true
+		if hb, _ := refts.EncodePES(pc.h, nil, refts.PESEnc{HeaderStuffing: pc.enc.HeaderStuffing}, nil); len(hb)-6+n <= 0xffff && i%2 == 0 {
+			pc.mode, pc.enc.LengthZero = "exact", false
+		}
+		checkPESDecode(c, "big", i, r, pc, true)
+		c.Count("big_units_decoded")
+		c.Max("largest_unit_decoded_bytes", int64(n))
 	}
 	// stage encode: WriteData vs reference encoding
 	ne := c.Pick(120000, 6000000)
